@@ -183,7 +183,7 @@ var interpretable = map[string]bool{
 	"internal/stringslite": true, "internal/bytealg": true, "iter": true, "math": true, "math/bits": true,
 	"internal/itoa": true, "strconv": true, "internal/godebug": false,
 	"github.com/go-openapi/jsonpointer":     true,
-	"vendor/golang.org/x/net/http/httpguts": true, "vendor/golang.org/x/net/http/httpproxy": false,
+	"vendor/golang.org/x/net/http/httpguts": true, "mime": true, "mime/multipart": true, "mime/quotedprintable": true, "bufio": true, "vendor/golang.org/x/net/http/httpproxy": false,
 }
 
 // interpretableFuncs: single functions of otherwise non-interpreted packages.
@@ -475,6 +475,28 @@ func (i *interpreter) initForeignGlobal(g *ssa.Global, cell *value) {
 						return
 					}
 				}
+				if callee := v.Call.StaticCallee(); callee != nil && callee.String() == "internal/godebug.New" {
+					// a GODEBUG setting: always at its default (Value() == "")
+					z := zero(mustDeref(v.Type()))
+					*cell = &z
+					return
+				}
+			case *ssa.Convert:
+				// var x = []byte("lit")
+				if c, ok := v.X.(*ssa.Const); ok {
+					if str, ok := constValue(c).(string); ok {
+						if sl, ok := v.Type().Underlying().(*types.Slice); ok {
+							if b, ok := sl.Elem().Underlying().(*types.Basic); ok && b.Kind() == types.Uint8 {
+								out := make([]value, len(str))
+								for k := 0; k < len(str); k++ {
+									out[k] = str[k]
+								}
+								*cell = out
+								return
+							}
+						}
+					}
+				}
 			case *ssa.Alloc:
 				// var X = &T{...}: a zero T (field initialisers are not replayed; such
 				// objects are only passed around by the repository, never inspected)
@@ -495,6 +517,15 @@ func (i *interpreter) initForeignGlobal(g *ssa.Global, cell *value) {
 					*cell = iface{t: a.Type(), v: &z}
 					return
 				}
+				if c, ok := v.X.(*ssa.Const); ok {
+					// var X I = T{} (e.g. io.Discard)
+					if c.Value == nil {
+						*cell = iface{t: c.Type(), v: zero(c.Type())}
+					} else {
+						*cell = iface{t: c.Type(), v: constValue(c)}
+					}
+					return
+				}
 			}
 			panic(unsupported{"initialiser of foreign variable " + g.String()})
 		}
@@ -506,3 +537,10 @@ func (i *interpreter) initForeignGlobal(g *ssa.Global, cell *value) {
 }
 
 var foreignGlobalInit = map[string]func(i *interpreter) value{}
+
+func init() {
+	// GODEBUG settings are at their defaults
+	externals["(*internal/godebug.Setting).Value"] = func(fr *frame, a []value) value { return "" }
+	externals["(*internal/godebug.Setting).IncNonDefault"] = func(fr *frame, a []value) value { return nil }
+	externals["(*internal/godebug.Setting).Name"] = func(fr *frame, a []value) value { return "" }
+}
